@@ -928,6 +928,24 @@ def r03_15_tag_class_direction(ctx, rid='R03.15'):
             a, b = c.args
             if from_tag(a) or from_tag(b):
                 n += 1
+                reversed_ = from_tag(b) and not from_tag(a)
+                if reversed_:
+                    # asking the question the other way round is harmless where it only words a message; it matters where the
+                    # answer "yes" lets the tagged class through (it is returned, or recognition continues with it)
+                    def lets_through(x):
+                        in_msg = set()
+                        for m in ast.walk(x):
+                            if isinstance(m, ast.JoinedStr) or (isinstance(m, ast.Call) and isinstance(m.func, ast.Attribute) and m.func.attr == 'format'):
+                                in_msg |= {id(y) for y in ast.walk(m)}
+                        return any(from_tag(y) and id(y) not in in_msg for y in ast.walk(x) if isinstance(y, (ast.Name, ast.Subscript)))
+                    used = False
+                    for st in f.walk():
+                        if isinstance(st, ast.Return) and st.value is not None or (isinstance(st, ast.Call) and (call_name(st) or '').lstrip('_').startswith('recognize')):
+                            if any(g is c and p_ for g, p_ in f.guards(st)) and lets_through(st.value if isinstance(st, ast.Return) else st):
+                                used = True
+                    if not used:
+                        r.ok('%s: %s only words a message' % (fi.qual, norm(c)[:50]))
+                        continue
                 r.check(from_tag(a) and not from_tag(b), '%s: %s asks whether the tagged class is a kind of the expected one' % (fi.qual, norm(c)[:50]),
                         f.key('tag-class-direction:%s' % f.alpha.text(b)[:40]), f.loc(c),
                         '%s asks whether the *expected* type is a subclass of the class named by the tag: a tag that names a base class of '
